@@ -638,6 +638,47 @@ def interleaved_oracle(rng, n):
     return fails, count
 
 
+def reparse_noreduce_check(ia, ib, T):
+    """Second sentence of C17 for a solver built with run_equation_reduction=False (the histories of the model use
+    the default): solve block a, re-parse with block b, solve; variables, series and table must be those of a
+    fresh solver given block b.  Implementation only."""
+    from sfc_models.equation_solver import EquationSolver
+
+    def run(s):
+        try:
+            s.SolveEquation()
+            err = None
+        except Exception as e:  # noqa
+            err = common.exc_class(e)
+        try:
+            ser = _series_hex(s.TimeSeries)
+        except Exception:  # noqa
+            ser = None
+        try:
+            csv = s.GenerateCSVtext()
+        except Exception as e:  # noqa
+            csv = 'raised ' + common.exc_class(e)
+        return err, ser, csv
+    s = EquationSolver(run_equation_reduction=False)
+    s.MaxTime = T
+    s.ParseString(BLOCKS[ia])
+    run(s)
+    s.ParseString(BLOCKS[ib])
+    got = run(s)
+    f = EquationSolver(run_equation_reduction=False)
+    f.MaxTime = T
+    f.ParseString(BLOCKS[ib])
+    want = run(f)
+    if got == want:
+        return []
+    gv = sorted(k for k, _ in (got[1] or []))
+    wv = sorted(k for k, _ in (want[1] or []))
+    what = ('variables %r, a fresh solver reports %r' % (gv, wv)) if gv != wv else \
+        ('outcome/series/table differ: %r vs %r' % (got[0], want[0]))
+    return [{'key': 'history:reparse-remnants', 'what': 'solver without equation reduction re-parsed with another block: ' + what,
+             'replay': {'kind': 'reparse_noreduce', 'a': ia, 'b': ib, 'T': T}}]
+
+
 def replay_interleaved(r):
     import gen_common as G
 
@@ -785,6 +826,9 @@ def run(ctx):
         if len([a for a in sc['actions'] if a[0] in ('main', 'solve', 'model_resolve')]) >= 2:
             seen.add(json.dumps(sc, sort_keys=True))
     stats['fresh_references'] = len(_fresh_cache)
+    for _ in range(ctx.scale(40, 400)):
+        out.failures.extend(reparse_noreduce_check(ctx.rng.choice(GOOD_BLOCKS), ctx.rng.choice(GOOD_BLOCKS), ctx.rng.choice([2, 3, 5])))
+        stats['reparse_without_reduction'] = stats.get('reparse_without_reduction', 0) + 1
     ifails, icount = interleaved_oracle(ctx.rng, ctx.scale(40, 600))
     out.failures.extend(ifails)
     sfails, scount = steady_oracle(ctx.rng, ctx.scale(15, 200))
@@ -828,6 +872,8 @@ def replay(path):
         sc = r['scenario']
         prefetch(scenario_refs(sc)[1])
         fails = judge_scenario(sc, run_scenario(sc))
+    elif r.get('kind') == 'reparse_noreduce':
+        fails = reparse_noreduce_check(r['a'], r['b'], r['T'])
     elif r.get('kind') == 'history':
         h = r['history']
         prefetch(needed_keys(h))
